@@ -3,6 +3,8 @@ package world
 import (
 	"context"
 	"fmt"
+	"net"
+	"os"
 	"sort"
 	"strings"
 	"sync"
@@ -48,6 +50,10 @@ type Redis struct {
 	// Canon, if set, renders a stored value canonically for the calling thread's observation
 	// hash (the raw bytes contain real-clock noise: token expiry computed by dependencies).
 	Canon func(key string, val []byte) string
+
+	inners   []redis.Client
+	unixPath string
+	unixL    net.Listener
 }
 
 // NewRedis starts a miniredis on loopback.
@@ -57,6 +63,12 @@ func NewRedis() *Redis {
 		panic(err)
 	}
 	r := &Redis{M: m}
+	r.hookClock()
+	return r
+}
+
+func (r *Redis) hookClock() {
+	m := r.M
 	m.SetTime(Now())
 	OnAdvance(func(d time.Duration) {
 		if d > 0 {
@@ -64,17 +76,81 @@ func NewRedis() *Redis {
 		}
 		m.SetTime(Now())
 	})
-	return r
 }
 
-// URL is the redis:// connection URL.
-func (r *Redis) URL() string { return "redis://" + r.M.Addr() }
+// URL is the connection URL (redis://host:port, or unix://path after ListenUnix).
+func (r *Redis) URL() string {
+	if r.unixPath != "" {
+		return "unix://" + r.unixPath
+	}
+	return "redis://" + r.M.Addr()
+}
 
 // Close stops the server.
-func (r *Redis) Close() { r.M.Close() }
+func (r *Redis) Close() {
+	if r.unixL != nil {
+		r.unixL.Close()
+		os.Remove(r.unixPath)
+		r.unixL = nil
+	}
+	r.M.Close()
+}
+
+// ListenUnix additionally serves the store on a unix-domain socket and makes URL() point to
+// it, so that client connections consume no TCP ports (harnesses that build many thousands of
+// proxies in one process; every closed loopback TCP connection blocks a port for a minute).
+func (r *Redis) ListenUnix(path string) error {
+	l, err := net.Listen("unix", path)
+	if err != nil {
+		return err
+	}
+	r.unixL, r.unixPath = l, path
+	srv := r.M.Server()
+	go func() {
+		for {
+			c, err := l.Accept()
+			if err != nil {
+				return
+			}
+			srv.ServeConn(c)
+		}
+	}()
+	return nil
+}
+
+// Reset makes the store as good as new for the next world in the same process: all keys
+// dropped, call log and hooks cleared, wrapped clients closed, store time = virtual now, and the
+// clock hook registered again (callers clear the advance hooks between worlds).
+func (r *Redis) Reset() {
+	r.CloseClients()
+	r.M.FlushAll()
+	r.mu.Lock()
+	r.Calls, r.seq, r.Intercept, r.Canon = nil, 0, nil, nil
+	r.mu.Unlock()
+	r.hookClock()
+}
+
+// CloseClients closes the connection pools of the store clients that were wrapped (the proxy
+// never closes its own); for harnesses that build many thousands of worlds in one process.
+func (r *Redis) CloseClients() {
+	r.mu.Lock()
+	in := r.inners
+	r.inners = nil
+	r.mu.Unlock()
+	for _, c := range in {
+		if cl, ok := c.(interface{ Close() error }); ok {
+			_ = cl.Close()
+		}
+	}
+}
 
 // Wrap returns a client that routes every operation through the hooks and then to inner.
-func (r *Redis) Wrap(inner redis.Client) redis.Client { return &hookClient{r: r, in: inner} }
+func (r *Redis) Wrap(inner redis.Client) redis.Client {
+	r.mu.Lock()
+	r.inners = append(r.inners, inner)
+	r.mu.Unlock()
+	return &hookClient{r: r, in: inner}
+}
 
 type hookClient struct {
 	r  *Redis
